@@ -10,8 +10,6 @@ pub mod codecs;
 pub mod explore;
 pub mod fixture;
 pub mod iterproto;
-pub mod kdispatch;
-pub mod kmers;
 pub mod model;
 pub mod producers;
 pub mod rec;
@@ -19,5 +17,4 @@ pub mod run;
 pub mod spec;
 
 pub use codecs::*;
-pub use kmers::{dispatch_k, k_set, max_k, KVisitor, Sid, Store};
 pub use run::{main_loop, Out, Tier};
